@@ -28,7 +28,7 @@ FAST = ["VmAx1", "STup3", "SNest2", "DmX", "DmDm", "D0", "SOne", "SChain", "SInd
 SLOW = ["Sc1", "Sc2", "Sc3", "ScSw", "DmSc", "Acc", "Red", "It", "ItF"]    # masked-iterate programs belong to C16 only
 EAGER = ["STup3", "SNest2", "DmX", "DmDm", "CloPK", "CloPK2", "Clo1", "Clo2", "Clo0", "CloP", "CloK", "D0", "SOne", "SChain", "SIndep", "SNest", "SLit", "S2", "SDup", "Dm", "Dm2", "DmMap", "DmCon", "Msk", "MskD"]
 EAGER_ND = [x for x in EAGER if x != "SDup"]
-REGEN = ["STup3", "SNest2", "DmX", "DmDm", "D0", "SOne", "SChain", "SIndep", "SNest", "S2", "SDm", "Dm", "Dm2", "DmMap", "DmCon"]
+REGEN = ["STup3", "SNest2", "DmX", "DmDm", "D0", "SOne", "SChain", "SIndep", "SNest", "S2", "SDm", "Dm", "Dm2", "DmMap", "DmCon", "DmK"]
 REGEN_SLOW = ["Sc1", "Sc2", "DmSc", "It"]
 PROJ = ["D0", "SOne", "SChain", "SIndep", "SNest", "S2", "VmD", "VmS", "VmAx", "Rep", "SwXY", "SwSame", "Sw3", "SSw", "SVm",
         "Dm", "Dm2", "OrE", "MixE"]
@@ -83,7 +83,7 @@ PROFILES = {
     "C14": dict(own=CORE,
                 gens=[dict(ids=["Msk", "MskD", "VmMask", "MskSw"], first=["simulate", "generate"], edits=["update", "updateargs", "updateargs", "updatemask"], depth=3, n=(128, 2400))]),
     "C15": dict(own=CORE + ["nochange"],
-                gens=[dict(ids=["Dm", "Dm2", "DmMap", "DmCon", "SDm", "DmX", "DmX", "DmDm", "DmDm"], first=["simulate", "generate"], edits=["update", "updateargs", "updateargs", "regenerate", "project"], depth=3, n=(128, 2400)),
+                gens=[dict(ids=["Dm", "Dm2", "DmMap", "DmCon", "DmK", "DmK", "SDm", "DmX", "DmX", "DmDm", "DmDm"], first=["simulate", "generate"], edits=["update", "updateargs", "updateargs", "regenerate", "project"], depth=3, n=(128, 2400)),
                       dict(ids=["DmSc"], first=["simulate"], edits=["update", "updateargs"], depth=2, n=(16, 200))]),
     "C16": dict(own=CORE,
                 gens=[dict(ids=["MIt", "MItF", "MItF1"], first=["simulate", "generate"], edits=["update", "updateargs"], depth=1, n=(64, 600))]),
